@@ -8,6 +8,7 @@ from vlib import common, sched, shared
 from vlib.common import Report, Violation, HarnessError
 
 PID = 'C16'
+SET = os.environ.get('VERIF_SCEN_SET', 'C16')      # other sets (checks/concsets.py) are the concurrency passes of other checks, run through vlib/concrun.py
 
 
 def _import():
@@ -43,6 +44,8 @@ def HS():
 def _call(fn, *a, **k):
     def body():
         r = fn(*a, **k)
+        if hasattr(r, 'group') and hasattr(r, 'span'):      # a regex match object: compare what it matched
+            return ('match', r.group(0))
         return round(r, 12) if isinstance(r, float) else r
     body.desc = '%s%r' % (getattr(fn, '__name__', 'f'), a)
     return body
@@ -70,6 +73,10 @@ def scenarios():
     def add(name, warm, bodies, tiers=('quick', 'thorough'), bound=(2, 2), atomic=(), opcodes=False):
         S.append(dict(name=name, warm=warm, bodies=bodies, tiers=tiers, bound=dict(quick=bound[0], thorough=bound[1]), atomic=atomic, opcodes=opcodes))
 
+    if SET != 'C16':
+        from checks import concsets
+        concsets.build(SET, a, _call, add)
+        return S
     sc, pf = a.athlon_score, a.athlon_performance_needed
     # S1 combined events
     add('S1 athlon score||score first-call', [], [_call(sc, 'M', '100', 10.5), _call(sc, 'F', 'HJ', 1.8)])
@@ -120,6 +127,9 @@ def scenarios():
         [_call(aaf, 'M', 50, '100'), _call(aag, 'f', 60, 'HJ', 1.4)])
     add('S4 interpolated distance || tabulated event warmed-up', [_call(af, 'm', 40, 'HJ')],
         [_call(af, 'm', 50, '55'), _call(af, 'f', 62, 'HJ')], bound=(1, 2))
+    add('S4 interpolated || interpolated distances warmed-up', [_call(af, 'm', 40, 'HJ')], [_call(af, 'm', 50, '7K'), _call(af, 'f', 60, '11K')], bound=(1, 2))
+    add('S4 interpolated factor || interpolated best warmed-up', [_call(af, 'm', 40, 'HJ')], [_call(af, 'm', 50, '2400'), _call(wb, 'f', '5.3M')], bound=(1, 2))
+    add('S4 interpolated || interpolated same distance first-call', [], [_call(af, 'm', 50, '7K'), _call(ag_, 'm', 61, '7K', 1800.0)], bound=(1, 2))
     add('S4 mid-table pair warmed-up', [_call(af, 'm', 40, 'HJ')], [_call(af, 'm', 50, '5K'), _call(af, 'f', 71, 'MAR')],
         tiers=('thorough',), bound=(1, 1))
     add('S4 three threads on one grader warmed-up', [_call(af, 'm', 40, 'HJ')],
@@ -214,8 +224,10 @@ def atomic_admissible(sd):
 
 
 def _work(chunk):
-    idx, tier, alts = chunk
+    idx, tier, alts, uncompressed = chunk
     sd = scenarios()[idx]
+    if uncompressed:
+        sd = dict(sd, atomic=(), bound=dict(quick=1, thorough=1))
     sc, _ = build(sd)
     ex = sched.Explorer(sc, sd['bound'][tier])
     for item in alts:
@@ -226,8 +238,9 @@ def _work(chunk):
 def run_scenario(idx, sd, tier, rep):
     t0 = time.time()
     if sd['atomic'] and not atomic_admissible(sd):
-        rep.part(sd['name'], skipped='frame compression not admissible on this tree; the uncompressed bound-1 scenario still applies')
-        return 0
+        # the frame writes shared state: no compression; the same threads at full granularity with one pre-emption instead (also in the quick tier)
+        sd = dict(sd, atomic=(), bound=dict(quick=1, thorough=1), name=sd['name'] + ' [compression not admissible: full granularity]')
+        rep.part(sd['name'], note='frame compression not admissible on this tree (the frame writes shared state)')
     sc, ws = build(sd)
     sched.opcode_monitor(bool(sd.get('opcodes')))
     try:
@@ -240,7 +253,8 @@ def _run_scenario(idx, sd, tier, rep, sc, ws, t0):
     ex = sched.Explorer(sc, sd['bound'][tier])
     alts = ex.frontier()
     nchunks = max(1, min(len(alts), common.NPROC * 4))
-    res = common.pmap(_work, [(idx, tier, alts[i::nchunks]) for i in range(nchunks)]) if alts else []
+    unc = bool(scenarios()[idx]['atomic']) and not sd['atomic']
+    res = common.pmap(_work, [(idx, tier, alts[i::nchunks], unc) for i in range(nchunks)]) if alts else []
     execs, outcomes, by_bound, viol = ex.execs, dict(ex.outcomes), dict(ex.by_bound), list(ex.viol)
     maxp = ex.max_points
     points = ex.points_total
@@ -287,6 +301,21 @@ def _run_scenario(idx, sd, tier, rep, sc, ws, t0):
     return execs, points, len(outcomes)
 
 
+def run_set(tier):
+    """the scenarios of SET, collected in an unfinished Report (vlib/concrun.py turns it into JSON for the check that asked)"""
+    rep = Report(PID, tier, 'model_checking')
+    tot_exec = tot_points = 0
+    for idx, sd in enumerate(scenarios()):
+        if tier not in sd['tiers']:
+            continue
+        r = run_scenario(idx, sd, tier, rep)
+        if r:
+            tot_exec += r[0]
+            tot_points += r[1]
+    STATE.restore(PRISTINE)
+    return rep, tot_exec, tot_points
+
+
 def run(tier):
     rep = Report(PID, tier, 'model_checking')
     tot_exec = tot_points = 0
@@ -322,8 +351,12 @@ def run(tier):
 
 def replay(rec):
     c = rec['case']
+    SUFFIX = ' [compression not admissible: full granularity]'
     for sd in scenarios():
+        if sd['name'] + SUFFIX == c['scenario']:
+            sd = dict(sd, atomic=(), name=c['scenario'])
         if sd['name'] == c['scenario']:
+            sched.opcode_monitor(bool(sd.get('opcodes')))
             sc, _ = build(sd)
             ex = sched.Explorer(sc, 99)
             full = []
